@@ -80,7 +80,9 @@ fn materialise(inp: &Input, lt: Lt) -> Vec<u8> {
             for i in 0..*lines {
                 let len = if rng.chance(1, 50) { rng.range(0, maxlen * 20) } else { rng.range(0, *maxlen) };
                 for _ in 0..len {
-                    out.push(*rng.pick(b"aabc x"));
+                    // long inputs: mostly text, now and then a byte that is a terminator elsewhere
+                    let b = *rng.pick(b"aabc xaabc xaabc xaabc x\n\r\0");
+                    out.push(if b == lt_byte(lt) { b'a' } else { b });
                 }
                 if i + 1 < *lines || rng.chance(3, 4) {
                     if lt == Lt::Crlf && rng.chance(3, 4) {
@@ -302,13 +304,14 @@ fn first_diff(a: &[String], b: &[String]) -> String {
 
 /// Known-finding class of a difference, "" if none applies.
 fn classify(d: &Ds, spec: &[String], got: &[String], script: &[Step]) -> &'static str {
-    // F10b: the sink stops the search inside a run of inverted matches: the fast path has already
-    // moved `pos` to the end of the line that ends the run (as far as the buffer shows it), so the
-    // byte count depends on the buffer extent; everything else is equal
-    if d.invert && d.stop.is_some() && spec.len() == got.len() && !spec.is_empty() {
+    // F10b: the sink stops the search while the fast path's `pos` is not the end of the stopping
+    // line — ahead of it inside a run of inverted matches (pos was moved to the end of the line that
+    // ends the run as far as the buffer shows it), or behind it when a context line is refused before
+    // `set_pos(line.end())` — so the byte count depends on the buffer extent; everything else is equal
+    if d.stop.is_some() && spec.len() == got.len() && !spec.is_empty() {
         let n = spec.len() - 1;
         if spec[..n] == got[..n] && spec[n].starts_with("finish ") && got[n].starts_with("finish ") {
-            return "invert-fast-path-stop-byte-count";
+            return "sink-stop-fast-path-byte-count";
         }
     }
     // the matcher's line anchors are LF-based (no NUL terminator configured on it, which is what
@@ -460,12 +463,14 @@ fn gen_ds(rng: &mut Rng, boundary: bool, big: bool) -> Ds {
                 v.extend_from_slice(b"ab");
                 v
             }
-            _ => gen_lines(rng, t, lt == Lt::Crlf, 4, 3, b"ab"),
+            _ => gen_lines(rng, t, lt == Lt::Crlf, 4, 3, &alphabet_with_foreign(t, b"ab")),
         })
     } else {
         let max_lines = *rng.pick(&[3usize, 8, 20, 60]);
         let max_len = *rng.pick(&[3usize, 10, 40]);
-        Input::Hex(gen_lines(rng, lt_byte(lt), lt == Lt::Crlf, max_lines, max_len, b"aabc x"))
+        // two thirds of the inputs carry the other settings' terminator bytes inside their records
+        let alpha = if rng.chance(2, 3) { alphabet_with_foreign(lt_byte(lt), b"aabc x") } else { b"aabc x".to_vec() };
+        Input::Hex(gen_lines(rng, lt_byte(lt), lt == Lt::Crlf, max_lines, max_len, &alpha))
     };
     let passthru = rng.chance(1, 6);
     let mut d = Ds {
@@ -629,8 +634,8 @@ fn run_rb(case: &str, c: &Rb, drv: &mut Driver, rep: &mut Report) {
     let slice = drv.ask(&format!("c02.slice {} {} {} {}", eff.to_sx(), c.m.to_sx(), hex(&c.inp), c.sink.to_sx()));
     let alloc_err = r.is_err() && c.heap.is_some() && matches!(c.sink, searcher_common::Script::All);
     let strip_fin = |s: &str| s.split(';').filter(|e| !e.starts_with("fin ")).collect::<Vec<_>>().join(";");
-    if model != slice && eff.inv && matches!(c.sink, searcher_common::Script::Stop(_)) && strip_fin(&model) == strip_fin(&slice) {
-        rep.branch("rb:F10b-invert-stop-byte-count");
+    if model != slice && matches!(c.sink, searcher_common::Script::Stop(_)) && strip_fin(&model) == strip_fin(&slice) {
+        rep.branch("rb:F10b-sink-stop-byte-count");
         return;
     }
     if model != slice && !alloc_err && !(c.heap.is_some() && model.ends_with("|err")) {
@@ -682,11 +687,12 @@ fn gen_rb(rng: &mut Rng, boundary: bool) -> Rb {
             1 => vec![t],
             2 => b"x".to_vec(),
             3 => vec![b'x', t, t, b'a', b'b'],
-            _ => gen_lines(rng, t, cfg.lt == searcher_common::Lt::Crlf, 4, 3, b"abx"),
+            _ => gen_lines(rng, t, cfg.lt == searcher_common::Lt::Crlf, 4, 3, &alphabet_with_foreign(t, b"abx")),
         }
     } else {
         let (ml, mx) = (*rng.pick(&[3usize, 8, 20]), *rng.pick(&[3usize, 10, 30]));
-        gen_lines(rng, t, cfg.lt == searcher_common::Lt::Crlf, ml, mx, b"aabx  ")
+        let alpha = if rng.chance(2, 3) { alphabet_with_foreign(t, b"aabx  ") } else { b"aabx  ".to_vec() };
+        gen_lines(rng, t, cfg.lt == searcher_common::Lt::Crlf, ml, mx, &alpha)
     };
     let cap = if rng.chance(1, 8) { None } else { Some(*rng.pick(&[1usize, 1, 2, 3, 5, 8, 13, 64])) };
     let heap = if rng.chance(1, 8) { Some(rng.range(1, 40)) } else { None };
